@@ -404,7 +404,32 @@ def int_controls(draw):
 
 
 @st.composite
+def vfp_table(draw):
+    """a small, complete VFPPROD or VFPINJ table (table numbers 5..7)"""
+    num = draw(st.integers(5, 7))
+    if draw(st.booleans()):
+        nf, nt = draw(st.integers(1, 3)), draw(st.integers(1, 2))
+        flo = " ".join(str(10 * (i + 1)) for i in range(nf))
+        thp = " ".join(str(20 * (i + 1)) for i in range(nt))
+        rows = "".join(" %d %s /\n" % (t + 1, " ".join(str(100 + 10 * t + 5 * f) for f in range(nf))) for t in range(nt))
+        return "VFPINJ\n %d 2000 'WAT' 'THP' 1* 'BHP' /\n %s /\n %s /\n%s" % (num, flo, thp, rows)
+    nf, nt, nw, ng, na = draw(st.integers(1, 3)), draw(st.integers(1, 2)), draw(st.integers(1, 2)), draw(st.integers(1, 2)), 1
+    flo = " ".join(str(10 * (i + 1)) for i in range(nf))
+    rows = ""
+    for a in range(na):
+        for g in range(ng):
+            for w in range(nw):
+                for t in range(nt):
+                    rows += " %d %d %d %d %s /\n" % (t + 1, w + 1, g + 1, a + 1, " ".join(str(100 + 10 * t + 5 * f + w + g) for f in range(nf)))
+    return ("VFPPROD\n %d 2000 'LIQ' 'WCT' 'GOR' 'THP' ' ' 1* 'BHP' /\n %s /\n %s /\n %s /\n %s /\n 0 /\n%s" % (
+        num, flo, " ".join(str(20 * (i + 1)) for i in range(nt)), " ".join(str(0.25 * i) for i in range(nw)),
+        " ".join(str(100 * (i + 1)) for i in range(ng)), rows))
+
+
+@st.composite
 def kw_misc(draw, m):
+    if draw(st.integers(0, 15)) == 0:
+        return draw(vfp_table())
     if draw(st.integers(0, 7)) == 0:
         return "%s\n %s /\n" % (draw(st.sampled_from(["RPTRST", "RPTRST", "RPTSCHED"])), draw(int_controls()))
     return draw(st.sampled_from([
